@@ -33,13 +33,14 @@ ASSUMPTIONS = [
     'exitReason() is the per-exit oracle (their monitor loop is not driven here, see C13)',
     'when run() is made to raise inside Engine.restart the exit reason the real engine had recorded is frozen on exitReason() so that the '
     'engine still looks dead when the final state is delivered',
+    'a raising restart hook / a hook module failing at import raises an exception produced by a harness-selected action (61 actions: lazy imports of missing bindings, ImportError family, data errors, IOError aliases and subclasses); the model is told its MRO only; BaseException-only exceptions (KeyboardInterrupt, SystemExit) are not generated',
     'duck-typed job/specification objects; ComponentState is the real class with its constructor bypassed',
     'threads: RepeatingEngine.restart thread is not started (threading.Thread replaced); time.sleep is a no-op',
     'configuration side: layering and variable resolution of workflowAttributes.restartHookOn / shutdownOn are the real code\'s '
     '(the effective lists are read off FlowIRConcrete.get_component_configuration and handed to the duck-typed job); '
     'documents are minimal one-component FlowIR dictionaries, not packages on disk',
 ]
-HEADER = 'Require Import V.Restart.Model.\nOpen Scope Z_scope.'
+HEADER = 'Require Import V.Restart.Model V.Restart.Raise.\nOpen Scope Z_scope.'
 # how an exit comes about: the launched task reports it / the task generator raises (Engine.run: LaunchTask)
 LAUNCH_KINDS = {'task': None, 'os': 'GenOSError', 'launch': 'GenLaunchError', 'other': 'GenOtherError'}
 LAUNCH_REASON = {'os': 'SubmissionFailed', 'launch': 'SubmissionFailed', 'other': 'UnknownIssue'}
@@ -54,7 +55,14 @@ HOOKS = ['HPossible', 'HNotAvailable', 'HNotRequired', 'HNotPossible', 'HFailed'
          'HJunk', 'HRaiseIO', 'HRaiseOther']
 HOOK_MODULE = '''
 import builtins
+# the module is executed at every restart attempt (import_hooks_restart): it may fail while it is imported
+builtins._verif_c12_loads = getattr(builtins, '_verif_c12_loads', 0) + 1
+_h = getattr(builtins, '_verif_c12_hook', '')
+if _h.startswith('HLoad:') and _h != 'HLoad:no-restart':
+    builtins._verif_c12_raise[_h[6:]]()
+    raise SystemError('verif: the selected action did not raise')
 def Restart(workingDirectory, restarts, componentName, log, exitReason, exitCode):
+    builtins._verif_c12_calls = getattr(builtins, '_verif_c12_calls', 0) + 1
     h = builtins._verif_c12_hook
     ctx = {'HPossible': 'RestartContextRestartPossible', 'HNotAvailable': 'RestartContextHookNotAvailable',
            'HNotRequired': 'RestartContextRestartNotRequired', 'HNotPossible': 'RestartContextRestartNotPossible',
@@ -64,8 +72,163 @@ def Restart(workingDirectory, restarts, componentName, log, exitReason, exitCode
     if h == 'HFalse': return False
     if h == 'HJunk': return 42
     if h == 'HRaiseIO': raise IOError('verif')
+    if h.startswith('HRaise:'):
+        # the hook raises while it works: what it does (a lazy import of bindings that are not installed, opening a
+        # file that is not there, a dictionary lookup ...) is selected by the harness, the exception is Python's
+        builtins._verif_c12_raise[h[7:]]()
+        raise SystemError('verif: the selected action did not raise')
     raise ValueError('verif')
+if _h == 'HLoad:no-restart':
+    del Restart
 '''
+
+
+# ---- a hook that raises: WHICH exception.  Engine.restart tells "hook not available" (IOError) from "hook failed"
+# (any other exception) by the class of what the hook raised; a hook behaviour 'HRaise:<key>' makes the generated hook
+# module perform the action below.  The model classifies the exception from its MRO (Restart.Raise.raise_out), the
+# harness only reports the MRO of what Python actually raised.
+def _raise_actions():
+    import importlib
+    import io
+    import json as _json
+    import pickle
+    import shutil as _shutil
+    import socket
+    import subprocess
+    import zipimport
+
+    class HookError(Exception):
+        pass
+
+    class HookImportError(ImportError):
+        pass
+
+    class HookModuleNotFound(ModuleNotFoundError):
+        pass
+
+    class HookIOError(IOError):
+        pass
+
+    class HookLookupValueError(KeyError, ValueError):
+        pass
+
+    def lazy_import():
+        import verif_c12_bindings_of_a_code_that_is_not_installed
+
+    def lazy_import_sub():
+        importlib.import_module('verif_c12_bindings_that_are_missing.core')
+
+    def lazy_from_import():
+        from os import verif_c12_a_name_os_does_not_have
+
+    def lazy_relative_import():
+        importlib.import_module('.sibling', package=None)      # TypeError: relative import without package
+
+    def open_missing():
+        open(os.path.join(tempfile.gettempdir(), 'verif_c12_absent_dir', 'CONTROL'))
+
+    def open_dir():
+        open(tempfile.gettempdir())
+
+    def open_under_file():
+        open(os.path.join(os.path.abspath(__file__), 'CONTROL'))
+
+    def listdir_missing():
+        os.listdir(os.path.join(tempfile.gettempdir(), 'verif_c12_absent_dir'))
+
+    def unsupported_io():
+        io.StringIO('x').fileno()
+
+    def run_missing_exe():
+        subprocess.check_call([os.path.join(tempfile.gettempdir(), 'verif_c12_absent_exe')])
+
+    def failing_cmd():
+        subprocess.check_call(['false'])
+
+    def raiser(cls, *args):
+        def act():
+            raise cls(*(args or ('verif',)))
+        return act
+
+    acts = {
+        # the import family: what a hook that imports lazily raises on a machine without the bindings
+        'lazy-import': lazy_import, 'lazy-import-sub': lazy_import_sub, 'lazy-from-import': lazy_from_import,
+        'lazy-relative-import': lazy_relative_import,
+        'ImportError': raiser(ImportError), 'ModuleNotFoundError': raiser(ModuleNotFoundError),
+        'ZipImportError': raiser(zipimport.ZipImportError), 'HookImportError': raiser(HookImportError),
+        'HookModuleNotFound': raiser(HookModuleNotFound),
+        # other programming / data errors
+        'ValueError': raiser(ValueError), 'KeyError': lambda: {}['restart'], 'IndexError': lambda: [][-2],
+        'AttributeError': lambda: None.restart, 'TypeError': lambda: len(3), 'NameError': raiser(NameError),
+        'UnboundLocalError': raiser(UnboundLocalError), 'RuntimeError': raiser(RuntimeError),
+        'NotImplementedError': raiser(NotImplementedError), 'RecursionError': raiser(RecursionError),
+        'AssertionError': raiser(AssertionError), 'ZeroDivisionError': lambda: 1 // 0,
+        'OverflowError': raiser(OverflowError), 'MemoryError': raiser(MemoryError), 'EOFError': raiser(EOFError),
+        'LookupError': raiser(LookupError), 'StopIteration': lambda: next(iter(())),
+        'UnicodeDecodeError': lambda: b'\xff'.decode('utf-8'), 'JSONDecodeError': lambda: _json.loads('{'),
+        'UnpicklingError': raiser(pickle.UnpicklingError), 'CalledProcessError': failing_cmd,
+        'TimeoutExpired': raiser(subprocess.TimeoutExpired, 'cmd', 1), 'Exception': raiser(Exception),
+        'HookError': raiser(HookError), 'HookLookupValueError': raiser(HookLookupValueError),
+        'SyntaxError': lambda: compile('def (', 'restart.py', 'exec'), 'SystemError': raiser(SystemError), 'BufferError': raiser(BufferError), 'Warning': raiser(UserWarning),
+        # the IOError family ("not a DLMESO job"): IOError, its aliases and subclasses
+        'OSError': raiser(OSError), 'EnvironmentError': raiser(EnvironmentError), 'open-missing': open_missing,
+        'open-dir': open_dir, 'open-under-file': open_under_file, 'listdir-missing': listdir_missing,
+        'unsupported-io': unsupported_io, 'run-missing-exe': run_missing_exe,
+        'PermissionError': raiser(PermissionError), 'FileExistsError': raiser(FileExistsError),
+        'TimeoutError': raiser(TimeoutError), 'ConnectionError': raiser(ConnectionError),
+        'ConnectionRefusedError': raiser(ConnectionRefusedError), 'BrokenPipeError': raiser(BrokenPipeError),
+        'BlockingIOError': raiser(BlockingIOError), 'InterruptedError': raiser(InterruptedError),
+        'ChildProcessError': raiser(ChildProcessError), 'ProcessLookupError': raiser(ProcessLookupError),
+        'socket.timeout': raiser(socket.timeout), 'socket.gaierror': raiser(socket.gaierror),
+        'shutil.Error': raiser(_shutil.Error), 'SameFileError': raiser(_shutil.SameFileError),
+        'HookIOError': raiser(HookIOError),
+    }
+    classes = {}
+    for key in sorted(acts):
+        try:
+            acts[key]()
+        except Exception as error:
+            classes[key] = type(error)
+        else:
+            raise RuntimeError('verif C12: raise action %s does not raise' % key)
+    return acts, classes
+
+
+RAISE_ACTIONS, RAISE_CLASS = _raise_actions()
+RAISE_MRO = {k: [c.__name__ for c in RAISE_CLASS[k].__mro__] for k in RAISE_CLASS}
+RAISE_IO = sorted(k for k in RAISE_CLASS if issubclass(RAISE_CLASS[k], IOError))
+RAISE_OTHER = sorted(k for k in RAISE_CLASS if not issubclass(RAISE_CLASS[k], IOError))
+RAISE_IMPORT = sorted(k for k in RAISE_CLASS if issubclass(RAISE_CLASS[k], ImportError))
+# hook answers that refuse the restart (Engine.restart's documented protocol): once such a hook has been consulted
+# the task must not be started again
+REFUSING = ('HNotRequired', 'HNotPossible', 'HFailed', 'HCondNotMet', 'HFalse', 'HRaiseOther')
+
+
+def hook_refuses(h):
+    if h.startswith('HRaise:'):
+        return not issubclass(RAISE_CLASS[h[7:]], IOError)
+    return h in REFUSING
+
+
+def load_broken(h):
+    """'HLoad:<key>': the hook module raises <key> while it is imported / 'HLoad:no-restart': it defines no Restart.
+    Broken = not one of the two exceptions that mean 'the package has no such hook' (ImportError, IOError)"""
+    if not h.startswith('HLoad:'):
+        return False
+    return h == 'HLoad:no-restart' or not issubclass(RAISE_CLASS[h[6:]], (ImportError, IOError))
+
+
+LOADS = ['HLoad:' + k for k in sorted(RAISE_CLASS)] + ['HLoad:no-restart']
+
+
+def coq_hook(h, reason='Success'):
+    if h.startswith('HRaise:'):
+        return '(raise_out %s)' % clist([cstr(n) for n in RAISE_MRO[h[7:]]])
+    if h == 'HLoad:no-restart':
+        return '(hook_after_load LoadNoRestart %s HJunk)' % reason
+    if h.startswith('HLoad:'):
+        return '(hook_after_load (LoadRaises %s) %s HJunk)' % (clist([cstr(n) for n in RAISE_MRO[h[6:]]]), reason)
+    return h
 
 
 class _Obj(object):
@@ -133,6 +296,8 @@ class Driver(object):
         self.launch = None      # (reason, kind) of the next launch
         self.tasks = []         # tasks / failed launches of the current case
         self.now_ms = 0
+        self.hook_calls = []    # per handled exit of the last case: calls of the package's restart hook
+        builtins._verif_c12_raise = RAISE_ACTIONS
         drv = self
 
         # ---- the real Engine.run(), made synchronous ----------------------------------------------------------
@@ -316,6 +481,7 @@ class Driver(object):
         job = self.job(cfg, wd)
         del self.pending[:]
         del self.tasks[:]
+        del self.hook_calls[:]
         if cfg['is_rep']:
             eng = E.RepeatingEngine(job, taskGenerator=lambda *a, **k: None)
         else:
@@ -362,12 +528,15 @@ class Driver(object):
                         eng.exitReason = (lambda r=eng.exitReason(): r)
                 runs0 = self.runs[0]
                 got.clear()
+                builtins._verif_c12_calls = 0
+                builtins._verif_c12_loads = 0
                 try:
                     self.ctl.postMortemCheck({}, cs)
                     code = codes.get(got.get('code'), 'EXC:%s' % got.get('code'))
                 except Exception as error:     # postMortemCheck itself must not raise
                     code = 'EXC:postMortemCheck raised %s' % type(error).__name__
                 obs.append((code, eng.restarts, eng.resubmissionAttempts()))
+                self.hook_calls.append((builtins._verif_c12_calls, builtins._verif_c12_loads))
                 if not cfg['is_rep']:
                     views.append(self.view(eng))
                 started = self.runs[0] - runs0
@@ -410,7 +579,7 @@ def coq_launch(ev):
 def coq_hist(h):
     """launch history (l_ev): how each exit came about, the hook's behaviour, the stability verdict, run() outcome"""
     return clist(['{| lv_launch := %s; lv_hook := %s; lv_stable := %s; lv_run_ok := %s |}' % (
-        coq_launch(ev), ev[1], cbool(ev[2]), cbool(ev[3])) for ev in h])
+        coq_launch(ev), coq_hook(ev[1], LAUNCH_REASON.get(ev_kind(ev), ev[0])), cbool(ev[2]), cbool(ev[3])) for ev in h])
 
 
 FIN = {'finished': 'Finished', 'component_shutdown': 'Shutdown', 'failed': 'Failed'}
@@ -516,9 +685,25 @@ def eff_max(cfg):
     return mr
 
 
-def predicate(ctx, cfg, hist, obs, final, views=(), fresh=None, extra=None):
+def predicate(ctx, cfg, hist, obs, final, views=(), fresh=None, extra=None, calls=()):
     cls = []
     case = dict(extra or {}, cfg=cfg, hist=hist, obs=obs, final=final)
+    # a restart hook that was consulted and refused - by its answer or by failing (raising anything but the IOError
+    # that means 'not a DLMESO job') - is obeyed: the task is not started again (C12_hook_power / C12_raising_hook)
+    for ev, (code, _, _), (n, loads) in zip(hist, obs, calls):
+        if loads >= 1 and code == 'Initiated' and load_broken(ev[1]):
+            ctx.fail(case, 'task started again although the restart hook of the package is broken (%s while it is loaded, '
+                           'exit reason %s): only a hook that cannot be imported (ImportError / IOError) is a missing hook' % (
+                               ev[1][6:], ev[0]), cls)
+        if n > 1:
+            ctx.fail(case, 'the restart hook was called %d times for one exit' % n, cls)
+        if n >= 1 and code == 'Initiated' and hook_refuses(ev[1]):
+            what = ev[1]
+            if what.startswith('HRaise:'):
+                what = 'raising %s' % RAISE_CLASS[what[7:]].__name__
+            ctx.fail(case, 'task started again although the restart hook that was consulted refused the restart '
+                           '(%s, exit reason %s): a failed / refusing hook means the component gets its final state' % (
+                               what, ev[0]), cls)
     cont = 0
     consec = 0
     for ev, (code, restarts, resub) in zip(hist, obs):
@@ -594,6 +779,12 @@ def gen_hist(rng, cfg, n):
     pool = list(cfg['hook_on']) * 3 + ['SubmissionFailed'] * 3 + REASONS
     for _ in range(n):
         ev = (rng.choice(pool), rng.choice(HOOKS + ['HPossible'] * 6), rng.random() < 0.75, rng.random() < 0.95)
+        if rng.random() < 0.06:
+            # the hook module fails while it is imported (or has no Restart): it is never called
+            ev = (ev[0], rng.choice(LOADS)) + ev[2:]
+        if ev[1] in ('HRaiseIO', 'HRaiseOther') and rng.random() < 0.85:
+            # a raising hook raises SOMETHING: draw the exception (same side of the IOError divide as the bare outcome)
+            ev = (ev[0], 'HRaise:' + rng.choice(RAISE_IO if ev[1] == 'HRaiseIO' else RAISE_OTHER)) + ev[2:]
         # how the exit comes about: mostly reported by the launched task (as LSF / Kubernetes report a failed
         # submission), sometimes by the launch itself raising (ordinary engines only)
         x = rng.random()
@@ -642,6 +833,48 @@ def resubmission_family(rng, tier):
     return out
 
 
+def raise_family(rng, tier):
+    """the hook of the package is importable but RAISES when it is called, for every exception of RAISE_ACTIONS (the
+    import family of a lazily importing hook, programming / data errors, the IOError family): default hook file with
+    the default budget, a named hook file without maximum (unlimited budget), a small explicit budget, and the
+    configurations in which the package's hook is not the one consulted; runs of the same listed exit reason long
+    enough to tell 'refused at the first exit' from 'restarted until the budget is used up' from 'restarted for ever';
+    plus a raising exit between two exits the hook allows"""
+    base = {'max_restarts': 'absent', 'hook_file': 'HFNone', 'hook_loadable': True,
+            'hook_on': ['ResourceExhausted', 'KnownIssue'], 'is_sim': False, 'sim_restart': False, 'is_rep': False,
+            'shutdown_on': []}
+    named = dict(base, hook_file='HFNamed')
+    others = [dict(named, max_restarts=1), dict(base, hook_file='HFEmpty'), dict(base, hook_loadable=False),
+              dict(named, max_restarts=-1, shutdown_on=['KnownIssue']), dict(base, max_restarts=None, hook_on=['KnownIssue']),
+              dict(named, is_sim=True, sim_restart=False, hook_on=['SystemIssue', 'ResourceExhausted'])]
+    out = []
+    for i, key in enumerate(sorted(RAISE_CLASS)):
+        hk = 'HRaise:' + key
+        out.append((base, [('ResourceExhausted', hk, True, True)] * 5))
+        out.append((named, [('ResourceExhausted', hk, True, True)] * 7))
+        c = others[i % len(others)]
+        r = c['hook_on'][-1]
+        out.append((c, [(r, hk, True, True)] * 3))
+        out.append(((base, named)[i % 2], [('KnownIssue', 'HPossible', True, True), ('ResourceExhausted', hk, i % 3 != 0, True),
+                                           ('KnownIssue', 'HTrue', True, True)]))
+        # the same exception raised by the MODULE while it is imported: ImportError / IOError = no hook in the package
+        # (fallback hook: vanilla restart after ResourceExhausted, refusal after KnownIssue), anything else = broken hook
+        ld = 'HLoad:' + key
+        out.append(((named, base)[i % 2], [('ResourceExhausted', ld, True, True)] * (7, 5)[i % 2]))
+        out.append((c, [('KnownIssue', 'HPossible', True, True), (r, ld, True, True), (r, 'HPossible', True, True)]))
+    for c in (base, named, others[0], others[1], others[2]):
+        out.append((c, [('ResourceExhausted', 'HLoad:no-restart', True, True)] * 5))
+        out.append((c, [('KnownIssue', 'HTrue', True, True), ('KnownIssue', 'HLoad:no-restart', True, True)]))
+    for _ in range(20 if tier == 'quick' else 400):
+        c = dict(rng.choice([base, named] + others))
+        c['max_restarts'] = rng.choice(['absent', None, -1, 1, 2, 5])
+        pool = ['HRaise:' + rng.choice(RAISE_IMPORT), 'HRaise:' + rng.choice(RAISE_OTHER), 'HRaise:' + rng.choice(RAISE_IO),
+                rng.choice(LOADS), 'HPossible', 'HNotAvailable']
+        out.append((c, [(rng.choice(c['hook_on']), rng.choice(pool), rng.random() < 0.8, rng.random() < 0.95)
+                        for _ in range(rng.randint(2, 8))]))
+    return out
+
+
 FRESH_CFG = {'max_restarts': 'absent', 'hook_file': 'HFNone', 'hook_loadable': False, 'hook_on': ['ResourceExhausted'],
              'is_sim': False, 'sim_restart': False, 'is_rep': False, 'shutdown_on': []}
 
@@ -675,7 +908,8 @@ def explore(ctx, cases):
             ctx.count('hist_len_%d' % min(len(hist), 13))
             for o in obs:
                 ctx.count('code_' + o[0].split(':')[0])
-            predicate(ctx, cfg, hist, obs, final, views, fresh, extra=DOC_OF.get(case_key(cfg, hist)))
+            predicate(ctx, cfg, hist, obs, final, views, fresh, extra=DOC_OF.get(case_key(cfg, hist)),
+                      calls=list(drv.hook_calls))
             malformed = any(':' in o[0] for o in obs) or (final is not None and final not in FIN) or \
                 any(v[0] is not None and v[0] not in REASONS for v in views)
             if malformed:
@@ -801,9 +1035,9 @@ def run(ctx):
     rng = ctx.rng
     ctx.rule = ('exhaustive: every history of length <= L (quick 3, thorough 4; a history is extended only while restarts are '
                 'initiated - after a refusal no further exit is handled) over 8 exit reasons x {hook says possible, not required, raises} '
-                'for a grid of configurations; plus long runs of failed submissions (5-14 exits, reported by '
+                'for a grid of configurations; plus the raising-hook family (every exception, raised by Restart() when called / by the hook module while it is imported, and a module without Restart, x default / named / budgeted / not-consulted hook configurations, runs of 3-7 listed exits); plus long runs of failed submissions (5-14 exits, reported by '
                 'the task / launch raising / mixed, with and without a Success or a continuation restart in between); plus random '
-                'configurations x random histories (length <= 12, all 11 hook behaviours, stability and run() oracles, 30% of the '
+                'configurations x random histories (length <= 12, all 11 hook behaviours, a raising hook raising one of 61 exceptions (import family of a lazily importing hook, programming / data errors, IOError aliases and subclasses; classified by the model from the MRO), stability and run() oracles, 30% of the '
                 'SubmissionFailed/UnknownIssue exits produced by a failing launch); every exit of an ordinary engine goes through the '
                 'real Engine.run() launch/wait/_setExitReason pipeline; plus the real DLMESORestart on generated CONTROL files and the chain '
                 'with the fallback hook in a directory holding such a file; plus the configuration side: generated restartHookOn / shutdownOn '
@@ -819,6 +1053,18 @@ def run(ctx):
     cases.append((sf, [('SubmissionFailed', 'HJunk', True, True)] * 12))
     rep = dict(sf, hook_on=['KnownIssue'], is_rep=True, max_restarts=None)
     cases.append((rep, [('ResourceExhausted', 'HJunk', False, True), ('ResourceExhausted', 'HJunk', False, True)]))
+    # a hook that raises ImportError when it is called is a failed hook, not a missing one: default hook file / named
+    # hook file without a maximum (fixed corpus; the family below has every other exception)
+    lazy = {'max_restarts': 'absent', 'hook_file': 'HFNone', 'hook_loadable': True, 'hook_on': ['ResourceExhausted'],
+            'is_sim': False, 'sim_restart': False, 'is_rep': False, 'shutdown_on': []}
+    cases.append((lazy, [('ResourceExhausted', 'HRaise:lazy-import', True, True)] * 5))
+    cases.append((dict(lazy, hook_file='HFNamed'), [('ResourceExhausted', 'HRaise:ImportError', True, True)] * 7))
+    cases.append((dict(lazy, hook_file='HFNamed'), [('ResourceExhausted', 'HRaise:open-missing', True, True)] * 4))
+    cases.append((dict(lazy, hook_file='HFNamed'), [('ResourceExhausted', 'HLoad:SyntaxError', True, True)] * 4))
+    cases.append((lazy, [('ResourceExhausted', 'HLoad:lazy-import', True, True)] * 5))
+    rfam = raise_family(rng, ctx.tier)
+    ctx.count('raise_family', len(rfam))
+    cases.extend(rfam)
     fam = resubmission_family(rng, ctx.tier)
     ctx.count('resubmission_family', len(fam))
     cases.extend(fam)
@@ -830,8 +1076,10 @@ def run(ctx):
             for on in HOOK_ON_SETS[:3]:
                 grid.append({'max_restarts': mr, 'hook_file': hf, 'hook_loadable': ld, 'hook_on': on, 'is_sim': False,
                              'sim_restart': False, 'is_rep': False, 'shutdown_on': ['KnownIssue']})
-    evs = [(r, hk, True, True) for r in REASONS for hk in ('HPossible', 'HNotRequired', 'HRaiseOther')]
-    for cfg in grid:
+    for gi, cfg in enumerate(grid):
+        # the raising hook of the tree raises a different exception (not an IOError) in each configuration
+        evs = [(r, hk, True, True) for r in REASONS
+               for hk in ('HPossible', 'HNotRequired', 'HRaise:' + RAISE_OTHER[gi % len(RAISE_OTHER)])]
         for ev in evs:
             # a history continues only while restarts are initiated: explore() extends exactly those, up to length L
             cases.append((cfg, [ev], L, evs))
